@@ -1117,6 +1117,59 @@ theorem class_accepts_iff (env : Env) (hen : env.enabled = true) (hp : env.parse
       have : ¬ Consistent f (sdocOf f d) := fun hc => by rw [hiff.mpr hc] at hdec; cases hdec
       simp [this]
 
+theorem decorator_enabled_ne_original (env : Env) (req : Bool) (f : FnD) (d : Doc) (hen : env.enabled = true) :
+    decorator env req f d ≠ .original := by
+  intro hdec
+  unfold decorator at hdec
+  simp only [hen, Bool.not_true, Bool.and_false, Bool.false_eq_true, ↓reduceIte] at hdec
+  split at hdec
+  · split at hdec <;> cases hdec
+  · cases hdec
+
+/-- `pedantic_class`: the class decoration succeeds iff every method **to which docstring checking applies** (its docstring documents
+    parameters) has a docstring consistent with its signature — for every class (any number of methods), whatever its base classes -/
+theorem class_plain_accepts_iff (env : Env) (hen : env.enabled = true) (hp : env.parserInstalled = true) :
+    ∀ (units : List (FnD × Doc)), (∀ u ∈ units, SigOk u.1) →
+      (decorateClassPlain env units = .wrapper ↔
+        ∀ u ∈ units, Applies false (sdocOf u.1 u.2) → Consistent u.1 (sdocOf u.1 u.2)) := by
+  have hcls : plainClassShortcutUsesPedantic = true := by decide
+  intro units
+  induction units with
+  | nil => intro _; simp [decorateClassPlain, hen]
+  | cons u rest ih =>
+    intro hs
+    obtain ⟨f, d⟩ := u
+    have hsf : SigOk f := hs (f, d) (by simp)
+    have ih' := ih (fun u hu => hs u (by simp [hu]))
+    simp only [decorateClassPlain, hen, Bool.not_true, Bool.false_eq_true, ↓reduceIte, hcls, List.mem_cons, forall_eq_or_imp]
+    by_cases happ : Applies false (sdocOf f d)
+    · have hiff := accepts_iff_consistent env false f d hen hp hsf happ
+      cases hdec : decorator env false f d with
+      | original => exact absurd hdec (decorator_enabled_ne_original env false f d hen)
+      | wrapper => simp [ih', hiff.mp hdec]
+      | raised o =>
+        have : ¬ Consistent f (sdocOf f d) := fun hc => by rw [hiff.mpr hc] at hdec; cases hdec
+        simp [this, happ]
+    · rcases not_applies_accepted env f d happ with h | h
+      · simp [h, ih', happ]
+      · exact absurd h (decorator_enabled_ne_original env false f d hen)
+
+/-- non-vacuity: a `pedantic_class` class with a method whose docstring documents no parameter (checking does not apply to it) and a
+    consistently documented one is accepted; with the renamed entry of `exDocRenamed` in the second method it is rejected -/
+example : ¬ Applies false (sdocOf exFn ⟨[], Option.none⟩) ∧
+    decorateClassPlain ⟨true, true⟩ [(exFn, ⟨[], Option.none⟩), (exFn, exDoc)] = .wrapper ∧
+    decorateClassPlain ⟨true, true⟩ [(exFn, ⟨[], Option.none⟩), (exFn, exDocRenamed)] = .raised (.raised "PedanticDocstringException") := by
+  decide
+
+/-- **every class is checked through its own methods, whatever its bases are**: `for_all_methods(..)(cls)` can return before its loop
+    only for a disabled pedantic, the loop runs over `cls.__dict__` and hands every function to the decorator, and `pedantic_class`
+    / `pedantic_class_require_docstring` are `for_all_methods(pedantic)` / `for_all_methods(pedantic_require_docstring)`: the
+    decoration of a class derived from an already decorated class is `decorateClass` / `decorateClassPlain` of the methods it defines
+    (`class_accepts_iff`, `class_plain_accepts_iff`).  Generated from class_decorators.py on every run. -/
+theorem for_all_methods_checks_every_own_method :
+    forAllMethodsEarlyReturns = [] ∧ forAllMethodsDecoratesEveryFunction = true ∧ plainClassShortcutUsesPedantic = true ∧
+    classShortcutUsesRequireDocstring = true := by decide
+
 /-! ### the source has the shape the model assumes (flags and constants read by the translator) -/
 
 theorem docstring_source_shape :
